@@ -9,3 +9,8 @@ import RexModel.Props.C07
 #print axioms Rex.C07.valid_cell_data
 #print axioms Rex.C07.valid_noprune_complete
 #print axioms Rex.C07.valid_one_kind_per_generation
+#print axioms Rex.C07.posLt_iff
+#print axioms Rex.C07.cellLe_iff
+#print axioms Rex.C07.cellLe_trans
+#print axioms Rex.C07.cellLe_total
+#print axioms Rex.C07.C07_checked_schedule_is_valid_order
